@@ -151,6 +151,7 @@ pub fn check_program(p: &Program, l: &mut Local) -> Outcome {
                 "deep" => "family: deep nesting",
                 "typed" => "family: type-directed program",
                 "fixed" => "family: fixed",
+                "escape" => "family: string literal with another language's escape sequence",
                 _ => "family: other",
             });
             if built {
@@ -355,6 +356,31 @@ pub fn run(rep: &Report) {
                     .prop_map(|(src, ctx)| Program { family: "raw", src, ast: None, ctx }),
             ]
             .boxed()
+        },
+        &|p: &Program, l| check_program(p, l),
+    );
+    // string literals carrying escape sequences of other languages' syntax (\\n, \\x41, \\u{D800}, ...)
+    // with edge payloads, alone and inside a small program
+    let n_esc = rep.tier.pick(30_000u64, 1_000_000);
+    common::random_search(
+        rep,
+        "foreign-escapes",
+        102,
+        n_esc,
+        &|| {
+            (refmodel::gen::arb_text(), refmodel::gen::arb_foreign_escape(), refmodel::gen::arb_text(), 0u8..4, programs::arb_ctx())
+                .prop_map(|(a, e, b, shape, ctx)| {
+                    let (pq, sq) = (refmodel::tok::quote(&a), refmodel::tok::quote(&b));
+                    let lit = format!("{}{}{}", &pq[..pq.len() - 1], e, &sq[1..]);
+                    let src = match shape {
+                        0 => lit,
+                        1 => format!("len({}) + 1", lit),
+                        2 => format!("a = {}; a", lit),
+                        _ => format!("\"{}{}\"", e, e),
+                    };
+                    Program { family: "escape", src, ast: None, ctx }
+                })
+                .boxed()
         },
         &|p: &Program, l| check_program(p, l),
     );
